@@ -193,4 +193,13 @@ def tilingProg (o : Opts) : Prog St :=
       (.call (fun _ => chunkProg (sizeOf o) innerAfterChunk atInnerAfterChunk)
         (.call (fun _ => swapProgWalk1) .done)))
 
+/-- `ChunkLoopTrans.apply(node, options)` as called by a user (option checks included) -/
+def chunkTransProg (o : Opts) : Prog St :=
+  validateThen (fun s => optsOk o && chunkValidate (sizeOf o) s.nest)
+    (.prim (fun s => let (n, t) := chunkApply (sizeOf o) s.nest s.tab; { nest := n, tab := t }) .done)
+
+/-- `LoopSwapTrans.apply(node)` as called by a user -/
+def swapTransProg : Prog St :=
+  validateThen (fun s => swapValidate s.nest) (.prim (fun s => { s with nest := swapApply s.nest }) .done)
+
 end C26.Tiling
